@@ -289,3 +289,13 @@ def repro(c):
             calls.append('s.remove_subnet(IPNetwork((%d, %d), version=%d))' % (op[2], op[3], op[1]))
     return ("from netaddr import *; from netaddr.contrib.subnet_splitter import SubnetSplitter; "
             "s = SubnetSplitter(IPNetwork((%d, %d), version=%d)); %s; s.available_subnets()" % (v, p, ver, '; '.join(calls)))
+
+
+def shrink(c, fails):
+    """drop splitter calls one at a time while the history still violates the property"""
+    a = c.args
+    if a[0] != 'hist':
+        return c
+    _, ver, v, p, ops = a
+    red = common.shrink_seq(ops, lambda l: fails(Case(None, c.tag, ('hist', ver, v, p, tuple(l)))))
+    return Case(None, c.tag, ('hist', ver, v, p, tuple(red)))
